@@ -752,6 +752,7 @@ class SamplerOracle:
                 cur["accepted"], cur["alpha"] = ev[1], ev[2]
             elif cur is not None and ev[0] == "before-revert":
                 cur["reverted"], cur["mask"], cur["at_revert"] = True, ev[1], ev[2]
+        self.last_blocks = [dict(alpha=b.get("alpha"), accepted=b.get("accepted")) for b in blocks]
         # the value of the variable after block k = its value before block k+1 (or now)
         leak = False
         for k, b in enumerate(blocks):
@@ -790,6 +791,7 @@ class SamplerOracle:
         import torch
         from harness.props import c03
         st = self.state
+        self.last_info = None
         sampler = self.algo.samplers[name] if sampler is None else sampler
         meta = dict(sampler=type(sampler).__name__, variable=name, temperature_inv=T_inv, rep=rep, directed=None if directed is None else directed[0],
                     n_individuals=self.n_ind)
@@ -813,6 +815,7 @@ class SamplerOracle:
         pre, proposed = ev["put"][2], ev["proposed"][2]
         accepted = ev["decisions"][1].to(torch.bool)
         info = dict(alpha=ev["decisions"][2], accepted=accepted)
+        self.last_info = info
         rej = [j for j in range(self.n_ind) if not bool(accepted[j])]
         acc = [j for j in range(self.n_ind) if bool(accepted[j])]
         # the decision consumes the undo log: `state.revert(~accepted)` is what gibbs.py:758 does after EVERY decision (model: ind_step ends
@@ -963,7 +966,8 @@ def z_candidates(shape, std):
         numel *= d
     alt = torch.tensor([INF if i % 2 == 0 else -INF for i in range(numel)]).reshape(shape)
     huge = 3e38 / max(float(std), 1.0)          # std * z <= 3e38 stays a float32
-    out = [("z = +inf", torch.full(shape, INF)), ("z = -inf", torch.full(shape, -INF)), ("z = 3e38 / max(std, 1)", torch.full(shape, huge))]
+    out = [("z = +inf", torch.full(shape, INF)), ("z = -inf", torch.full(shape, -INF)), ("z = 3e38 / max(std, 1)", torch.full(shape, huge)),
+           ("z = 0 (null move for everybody: every alpha = 1, all accepted)", torch.zeros(shape))]
     if numel >= 2:
         out.insert(0, ("z = (+inf, -inf, ..)", alt))
         half = torch.tensor([huge if i % 2 == 0 else -huge for i in range(numel)]).reshape(shape)
@@ -1011,14 +1015,18 @@ def nan_alpha_steps(run: Run, orc: SamplerOracle, algo, base, rng, stats):
                     z[target] = zrow
                     sub = SamplerOracle(run, label, algo, st)
                     full = f"{scen}; {lab}" + (f"; after {prep}" if prep else "")
-                    info = sub.individual(name, 1.0, 0, directed=(full, None), force_z=lambda k, nat, _z=z: _z if k == 0 else None, sampler=smp)
+                    done = sub.individual(name, 1.0, 0, directed=(full, None), force_z=lambda k, nat, _z=z: _z if k == 0 else None, sampler=smp)
+                    info = sub.last_info
                     key = f"{name}: {scen}"
+                    if done is None:
+                        stats["individual"][key + ": a check failed or the step raised"] = stats["individual"].get(key + ": a check failed or the step raised", 0) + 1
                     if info is None:
-                        stats["individual"][key + ": step raised or a check failed"] = stats["individual"].get(key + ": step raised or a check failed", 0) + 1
                         continue
                     a = info["alpha"].flatten()
                     others = [i for i in range(n_here) if i != target]
                     reached = bool(a[target].isnan()) and all(float(a[i]) >= 1 for i in others) and not bool(info["accepted"][target])
+                    if bool(info["accepted"].all()):
+                        stats["reached"]["all accepted: " + scen] = stats["reached"].get("all accepted: " + scen, 0) + 1
                     kind = ("alpha[target] = NaN, every other alpha >= 1" if reached else
                             "alpha[target] = NaN, some other alpha < 1" if bool(a[target].isnan()) else
                             f"alpha[target] = {'0' if float(a[target]) == 0 else 'inf' if float(a[target]) == INF else 'finite'} (no NaN)")
@@ -1037,8 +1045,9 @@ def nan_alpha_steps(run: Run, orc: SamplerOracle, algo, base, rng, stats):
             def fz(k, nat, _kb=kb, _val=val, _std=float(sampler.std.flatten()[0])):
                 v = (3e38 / max(_std, 1.0)) if _val is None else _val
                 return torch.full_like(nat, v if k == _kb else 0.0)
-            blocks = sub.population(name, 1.0, 0, force_z=fz, label=f"block #{kb}: {lab}; other blocks: null move")
-            for b in blocks or []:
+            sub.last_blocks = []
+            sub.population(name, 1.0, 0, force_z=fz, label=f"block #{kb}: {lab}; other blocks: null move")
+            for b in sub.last_blocks:
                 a = b["alpha"]
                 kind = "NaN" if (a is not None and a != a) else "other"
                 stats["population"][f"{name}: alpha {kind}, {'accepted' if b['accepted'] else 'rejected'}"] = \
@@ -1171,7 +1180,8 @@ def main(run: Run):
                   "acceptance ratios are NaN for the target and >= 1 for everybody else (the step in which a reversion guarded by `(alpha < 1).any()` "
                   "is skipped); population samplers: one block with the non-finite draw, the others with the draw 0")
     run.extra["nan_alpha_steps"] = st
-    for scen in ("single individual", "others forced to a null move", "population block"):
+    for scen in ("single individual", "others forced to a null move", "population block", "all accepted: single individual",
+                 "all accepted: others forced to a null move"):
         if cfgs and not NAN_STATS["reached"].get(scen):
             run.broken("generator:nan-alpha-shape", f"no directed sampler step reached the shape '{scen}' with a NaN acceptance ratio for the target and "
                        f"alpha >= 1 for everybody else: {json.dumps(st, default=str)[:1500]}", kind="broken-correspondence")
@@ -1190,6 +1200,27 @@ def replay(run: Run, path: str):
         print(f"x -> y = 2x+1 -> z = sum(y), values of shape {inp['shape']}, revert(mask={inp['mask']}):", "as expected" if r is None else f"{r[1]}\n expected {r[2]}\n observed {r[3]}")
         print("REPLAY", "FAILS" if r else "passes")
         return 1 if r else 0
+    if not isinstance(inp.get("graph"), dict) and isinstance(inp.get("config"), str) and "directed" in inp and inp.get("sampler") == "IndividualGibbsSampler" \
+            and isinstance(inp.get("directed"), str) and ("single individual" in inp["directed"] or "null move" in inp["directed"]):
+        # a directed NaN-acceptance-ratio step: refit the configuration (same derived seed) and redo the directed steps of that configuration
+        from harness.props import c03
+        cfg = next((c for c in c03.configs(True) if c[0] == inp["config"]), None)
+        if cfg is None:
+            print(f"replay: unknown configuration {inp['config']}; re-running the check")
+            return main(run)
+        label, kind, kw, pop = cfg
+        algo, state = c03.fitted(run, label, kind, kw, pop)
+        orc = SamplerOracle(run, label, algo, state)
+        NAN_STATS.update(individual={}, population={}, reached={}, reached_configs=set())
+        nan_alpha_steps(run, orc, algo, state, run.rng("c02-replay", label), NAN_STATS)
+        print(f"{label}: directed steps with a non-evaluable proposal for one individual and null moves for the others "
+              f"(recorded: {inp.get('variable')}, {inp['directed']}, {inp.get('n_individuals')} individual(s)):")
+        for k, v in sorted(NAN_STATS["individual"].items()):
+            print(f"   {v:3d} x {k}")
+        for f in run._fails[:6]:
+            print(f"TRACE LEFT [{f['signature']}] {f['what'][:300]}\n   input {json.dumps(f['input'], default=str)[:400]}\n   expected {str(f['expected'])[:200]}\n   observed {str(f['observed'])[:200]}")
+        print("REPLAY", "FAILS" if run._fails else "passes")
+        return 1 if run._fails else 0
     if not isinstance(inp.get("graph"), dict):
         print("replay: no toy history in this file (real-sampler finding or broken obligation); re-running the check")
         return main(run)
